@@ -3,6 +3,11 @@ package main
 // C13: Slice.GetIndices / IndexIntCheck through the Go API.
 //   gi <len> <start> <stop> <step>      (N = None, otherwise a decimal integer of any size)
 //   ix <len> <index>
+// and the element operations of list / tuple on [10, 11, ..., 10+len-1]:
+//   lg|tg <len> <start> <stop> <step>            x[start:stop:step]
+//   ls <len> <start> <stop> <step> <rhslen>      x[start:stop:step] = [90, 91, ...]
+//   ld <len> <start> <stop> <step>               del x[start:stop:step]
+//   li|lS|lD <len> <index>                       x[i] / x[i] = 77 / del x[i]
 
 import (
 	"bufio"
@@ -54,6 +59,78 @@ func c13Main(args []string) int {
 					return "E:" + errClass(err)
 				}
 				return fmt.Sprintf("%d", i)
+			}
+			mk := func(base, k int) []py.Object {
+				items := make([]py.Object, k)
+				for i := range items {
+					items[i] = py.Int(base + i)
+				}
+				return items
+			}
+			show := func(o py.Object) string {
+				var items []py.Object
+				switch x := o.(type) {
+				case *py.List:
+					items = x.Items
+				case py.Tuple:
+					items = x
+				default:
+					return fmt.Sprintf("?%T", o)
+				}
+				parts := make([]string, len(items))
+				for i, it := range items {
+					parts[i] = fmt.Sprint(it)
+				}
+				return "[" + strings.Join(parts, " ") + "]"
+			}
+			// spare capacity behind the list, as after appends
+			backing := append(mk(10, n), py.Int(-1), py.Int(-2))
+			l := py.NewListFromItems(backing[:n])
+			switch f[0] {
+			case "lg", "tg":
+				sl := py.NewSlice(mkIdx(f[2]), mkIdx(f[3]), mkIdx(f[4]))
+				var r py.Object
+				var err error
+				if f[0] == "lg" {
+					r, err = l.M__getitem__(sl)
+				} else {
+					r, err = py.Tuple(mk(10, n)).M__getitem__(sl)
+				}
+				if err != nil {
+					return "E:" + errClass(err)
+				}
+				return show(r)
+			case "ls":
+				k, _ := strconv.Atoi(f[5])
+				_, err := l.M__setitem__(py.NewSlice(mkIdx(f[2]), mkIdx(f[3]), mkIdx(f[4])), py.NewListFromItems(mk(90, k)))
+				if err != nil {
+					return "E:" + errClass(err)
+				}
+				return show(l)
+			case "ld":
+				_, err := l.M__delitem__(py.NewSlice(mkIdx(f[2]), mkIdx(f[3]), mkIdx(f[4])))
+				if err != nil {
+					return "E:" + errClass(err)
+				}
+				return show(l)
+			case "li":
+				r, err := l.M__getitem__(mkIdx(f[2]))
+				if err != nil {
+					return "E:" + errClass(err)
+				}
+				return "[" + fmt.Sprint(r) + "]"
+			case "lS":
+				_, err := l.M__setitem__(mkIdx(f[2]), py.Int(77))
+				if err != nil {
+					return "E:" + errClass(err)
+				}
+				return show(l)
+			case "lD":
+				_, err := l.M__delitem__(mkIdx(f[2]))
+				if err != nil {
+					return "E:" + errClass(err)
+				}
+				return show(l)
 			}
 			return "BADCASE"
 		}))
